@@ -228,6 +228,17 @@ impl<'a> Fold<Diagnostic> for TypeResolver<'a> {
         Ok(node)
     }
 
+    fn fold_enumerated_value(
+        &mut self,
+        node: EnumeratedValue,
+    ) -> Result<EnumeratedValue, Diagnostic> {
+        // The type in front of a value (TYPE#VALUE) names a type.
+        if let Some(type_name) = &node.type_name {
+            self.require_known_type(type_name, "Enumeration type of the value");
+        }
+        Ok(node)
+    }
+
     fn fold_function_declaration(
         &mut self,
         node: FunctionDeclaration,
